@@ -96,6 +96,28 @@ func models() []rpac.ValidationInfo {
 			}
 		}
 	}
+	// extra SIDs and resource groups that repeat earlier group SIDs, at every position among distinct ones
+	sidOf := func(rid uint32) rpac.SID {
+		return rpac.SID{Revision: 1, Authority: 5, Sub: append(append([]uint32{}, dom.Sub...), rid)}
+	}
+	for _, pattern := range [][]uint32{{2000, 3000}, {3000, 2000}, {2000, 3000, 3001}, {3000, 2001, 3001}, {2000, 2001, 3000}, {3000, 3000, 3001}} {
+		for _, rg := range []bool{false, true} {
+			v := base
+			v.EffectiveName, v.FullName = rpac.Str{Value: "dupuser"}, rpac.Str{Value: "Dup User"}
+			v.Groups = []rpac.Group{{RID: 2000, Attributes: 7}, {RID: 2001, Attributes: 7}}
+			v.ExtraSIDs = nil
+			for _, rid := range pattern {
+				v.ExtraSIDs = append(v.ExtraSIDs, rpac.ExtraSID{SID: sidOf(rid), Attributes: 7})
+			}
+			v.ResourceGroupDomainSID, v.ResourceGroups = nil, nil
+			if rg {
+				d := dom
+				v.ResourceGroupDomainSID = &d // same domain: resource group RIDs may repeat group and extra SIDs
+				v.ResourceGroups = []rpac.Group{{RID: 2001, Attributes: 7}, {RID: 4000, Attributes: 7}, {RID: 3000, Attributes: 7}, {RID: 4001, Attributes: 7}}
+			}
+			out = append(out, v)
+		}
+	}
 	out = append(out, rpac.SampleGOKRB5(), rpac.SampleTrust())
 	return out
 }
@@ -279,6 +301,26 @@ func Run(c *engine.Ctx) {
 						}
 						if r3 := process(m, etypeOf(other), ok); r3.panic != "" || r3.err == nil {
 							c.Violate("negative", fmt.Sprintf("accepts-other-declared-type:%d-as-%d", st, other), map[string]interface{}{"panic": r3.panic}, rec)
+						}
+					}
+					// the signature computed with this key's own mechanism over a PAC that DECLARES another type of the same length
+					for _, declared := range sigTypes {
+						if declared == st || rpac.SigLen(declared) != rpac.SigLen(st) {
+							continue
+						}
+						evals++
+						bb := build(v, declared, keyOf(etypeOf(declared), c.Seed), rodc, stdOrder, c.Seed) // laid out with the declared type (its own signature is overwritten below)
+						zero := append([]byte{}, bb.pac...)
+						for i := 0; i < bb.srvSigLen; i++ {
+							zero[bb.srvSigOff+i] = 0
+						}
+						for i := 0; i < bb.kdcSigLen; i++ {
+							zero[bb.kdcSigOff+i] = 0
+						}
+						sig, _ := rcrypto.Checksum(et, key, 17, zero)
+						copy(bb.pac[bb.srvSigOff:], sig[:bb.srvSigLen])
+						if r4 := process(bb.pac, et, key); r4.panic != "" || r4.err == nil {
+							c.Violate("negative", fmt.Sprintf("accepts-signature-of-type-%d-declared-as-%d", st, declared), map[string]interface{}{"panic": r4.panic}, rec)
 						}
 					}
 					c.Distinct(fmt.Sprintf("valid/%d/%d/%d/%v", mi, st, ks, rodc != nil))
